@@ -83,6 +83,8 @@ def plan(seed, subbatch):
     widest = min(widest, 120 * base_s)      # a day-shifted member timeframe does not scale the outages
     if cfg.random() < 0.2:
         hexcfg["lifespan_s"] = max(widest * cfg.randint(8, 40), base_s * n // 2)
+        if sub_rng(seed, "life-edge").random() < 0.12:
+            hexcfg["lifespan_s"] = 0      # the smallest legal lifespan (only the newest timestamp is retained)
     if subbatch == "calm":
         faults, burst, encs = {}, None, None
     else:
